@@ -103,7 +103,7 @@ func c11AuxEdits() [][3]int {
 // ones up to byte 600; the thorough tier takes every window of the image.
 const c11IdxSeed = 3
 
-var c11IdxVals = []uint32{0xffffffff, 0x80000000, 0x7fffffff, 0, 0x00010000, 0x7ffffff0}
+var c11IdxVals = []uint32{0xffffffff, 0x80000000, 0x7fffffff, 0, 0x00010000, 0x00000100}
 
 type c11IdxEdit struct {
 	target string
